@@ -1372,6 +1372,9 @@ def check_bitfields(bfs, bound, rng, n_random):
 
 def report_type_failure(ctx, level, t, mm, bound, src=None):
     """shrink the failing type, then report the first mismatch of the minimal type"""
+    global SIM_ALL_MODES
+    SIM_ALL_MODES = True     # candidates are small: every construction path in their compiled wrapper
+
     def ev(c):
         rng = __import__("random").Random(0)
         try:
@@ -1489,6 +1492,8 @@ def run(ctx: Ctx):
 
 
 def replay(ctx, data):
+    global SIM_ALL_MODES
+    SIM_ALL_MODES = True
     r = data["replay"]
     rng = __import__("random").Random(0)
     if r["level"] == "bf":
